@@ -6,6 +6,7 @@ import PflDrv.FST
 import PflDrv.Indexed
 import PflDrv.Regex
 import PflDrv.Feature
+import PflDrv.Label
 open Lean PflDrv
 
 def dispatch (j : Json) : R Json := do
@@ -17,6 +18,7 @@ def dispatch (j : Json) : R Json := do
   else if op.startsWith "ig." then igHandle op j
   else if op.startsWith "rx." then rxHandle op j
   else if op.startsWith "fs." then fsHandle op j
+  else if op.startsWith "lab." then labHandle op j
   else if op == "ping" then pure (Json.str "pong")
   else throw s!"unknown op {op}"
 
